@@ -5,6 +5,66 @@ V = os.path.dirname(os.path.dirname(os.path.abspath(__file__)))
 
 # id -> (level, technique, level text, level note, design ref)
 CHECKS = {
+ "C03": ("exploration",
+         "bounded-exhaustive differential exploration: every statement of the pools drained with Next and with Batch on equal stores at every batch size",
+         "The two implementations (row Execute/Next, vector ExecuteBatch/Batch) are tied together on every statement of a product of pools (every scalar function, operator, indexing form, alias use, aggregate, ORDER BY, GROUP BY, LIMIT) over stores whose sizes straddle 0, 1, B-1, B, B+1, 2B, 2B+1, 3B+1 for each batch size; rows must agree position by position (multisets inside ORDER BY ties) and batch success implies row success.",
+         "Relational oracle only (no reference values); batch-fails-only is allowed by the property.",
+         "DESIGN.md §4 C03"),
+ "C04": ("exploration",
+         "bounded-exhaustive exploration of a typed expression grammar: each expression evaluated as parsed and after ExpressionOptimizer.Optimize(), plus the full query against the reference evaluator",
+         "All well-typed trees over a constant/row-term pool to the stated depth are parsed twice; the un-optimised and the optimised copies are evaluated with Execute and ExecuteBatch on every pair and must agree in kind and value wherever the original evaluates; the end-to-end query is compared with the reference evaluation of the un-rewritten text.",
+         "Exactly representable floats; integer division with inexact quotient judged by the folded-vs-unfolded leg only.",
+         "DESIGN.md §4 C04"),
+ "C05": ("exploration",
+         "bounded-exhaustive exploration of alias definitions x uses x access paths over all 2^5 accept/reject patterns; aliased vs expanded text, cache on vs off, columns vs reference values",
+         "For every alias scenario the filter's accept/reject pattern over the scanned pairs is enumerated completely (so every way a cached value of a rejected row could leak is exercised) in row mode and at several batch sizes; three oracles tie the result to the alias-expanded query, to the cache-disabled run and to the reference value of each announced field.",
+         "Alias expansion done on the reference AST; reference values only inside the reference's domain.",
+         "DESIGN.md §4 C05"),
+ "C06": ("exploration",
+         "exhaustive enumeration of all token strings up to length 5 (6), of all valid statements of the other checks' pools, of all single-token edits of a corpus and of parametrised long inputs, executed in isolated worker processes with a journal so that fatal runtime errors and hangs are attributed to the case",
+         "Every input of three exhaustive families is parsed, planned, executed in both modes over eight adversarial stores and its errors are rendered; a panic, a dead worker process (stack overflow, out of memory) or a hang is a violation. Crash isolation makes non-recoverable aborts observable and attributable.",
+         "Inputs up to 4 KB; arbitrary byte strings outside the enumerated families are not covered (coverage-guided mutation is another family).",
+         "DESIGN.md §4 C06"),
+ "C07": ("exploration",
+         "bounded-exhaustive exploration of ORDER BY specifications over all small stores with ties and int/float mixes; permutation + adjacent-pair check with an independent comparator",
+         "Every sequence of 1..2 (3) order fields with every direction combination over every store of up to 4 pairs from a universe with duplicates, ties and mixed numeric kinds (plus larger fixed stores and aggregate lists) is executed in both modes; the output must be a permutation of the unordered result and sorted under an independent comparator.",
+         "Pairs of values of unrelated kinds are not compared.",
+         "DESIGN.md §4 C07"),
+ "C09": ("exploration",
+         "bounded-exhaustive exploration of grouping-expression tuples x aggregate items over all stores of <= 4 pairs from universes built to make concatenated group values collide; independent fold as oracle",
+         "Every choice of up to 2 (3) grouping expressions and every aggregate item is executed over every store of three small universes (text, integer, float valued) in row mode and at three batch sizes and compared with an independent fold over the reference rows: one row per distinct tuple in first-pair order, aggregates per their definitions in scan order.",
+         "quantile excluded; group columns compared by content.",
+         "DESIGN.md §4 C09"),
+ "C10": ("exploration",
+         "bounded-exhaustive exploration of function probes over a rotated argument pool, each as row-dependent field, as folded constant and as WHERE outcome, in both modes",
+         "Each documented scalar function and indexing chain is applied to every (key, value) argument pair of a 6 x 12 text pool (and JSON documents), row-dependent, with the arguments substituted as constants (constant-folding path) and as a WHERE outcome, in row mode and three batch sizes, against an independent re-implementation from the README one-liners.",
+         "substr and quantile outside the property's list; ASCII only for upper/lower.",
+         "DESIGN.md §4 C10"),
+ "C14": ("exploration",
+         "bounded-exhaustive exploration of typed contexts x fillers: every well-typed filling must be accepted and execute without operand-type errors, every single-fault filling must be rejected with an empty storage call log",
+         "Typed one-hole contexts (every syntactic position the property lists) composed to depth 2 (3) are filled with every well-typed filler and with every single fault (wrong-type operand, faulty atom, unknown function, wrong arity, forbidden keyword); acceptance, rejection before any storage call, and absence of operand-type errors at execution are checked for each.",
+         "Only unambiguous typing faults are generated; dynamically typed [..] results excluded.",
+         "DESIGN.md §4 C14"),
+ "C15": ("exploration",
+         "bounded-exhaustive exploration of all well-typed operator trees with <= 3 (4) binary operators in several renderings; parsed AST vs generating tree, print/re-parse fix-point, Explain filter vs executed filter",
+         "Every typed tree over all operators up to the bound is rendered with minimal parentheses per the documented precedence table, fully parenthesised, with a redundant pair around each sub-tree in turn and in three letter cases; the parsed AST must equal the generating tree, its printed form must re-parse to it, and the filter text of Explain must re-parse to the filter the scan executes.",
+         "Only well-typed trees are observable; folded constants without literal syntax (negative numbers) are not judged in the Explain leg.",
+         "DESIGN.md §4 C15"),
+ "C16": ("exploration",
+         "exhaustive enumeration of all strings up to length 6 (7) over two 12-symbol alphabets and of all spacings of short token sequences, against an independent reference lexer",
+         "All strings over the token-relevant symbol classes up to the bound are lexed and compared token by token (kind, text, offset) with a reference lexer written from the README; every token's text must be found at its offset; all optional-spacing variants of token sequences must give identical kind/text sequences.",
+         "Only the space character is spacing; lone ^ / ~ judged on the per-token invariant only.",
+         "DESIGN.md §4 C16"),
+ "C17": ("exploration",
+         "exhaustive single-token-edit neighbourhoods of a statement corpus (incl. long statements) x leading/trailing blanks x paddings; position validity and caret alignment of every rendered error",
+         "Every single-token edit at every position of every corpus statement, with blanks and paddings varied, is planned and executed; every positional error must carry -1 or an offset inside the query (a token start for parse/check errors) and its rendering must show a stretch of the query containing the offset with the caret under it.",
+         "Non-positional errors skipped.",
+         "DESIGN.md §4 C17"),
+ "C19": ("model_checking",
+         "stateless model checking of the implementation: cooperative scheduler + depth-first exploration of ALL thread schedules up to a preemption bound (iterative context bounding), scheduling points at storage calls and at every package-level variable access instrumented at check time; conflict monitor; supporting free-running race-detector pass",
+         "For 12 scenarios x 3 mode assignments of 2..3 concurrently parsed/planned/executed statements every interleaving with <= 2 (3) preemptions is executed on the real code; each thread's observable result must equal its solo run, final stores must equal a sequential run, and no package-level variable may be written by one statement and accessed by another. A free-running -race pass of the same bodies supports it.",
+         "Thread-safe storage; granularity = storage calls and package-level variable accesses; the -race pass is sampled supporting evidence, not the deciding step.",
+         "DESIGN.md §4 C19"),
  "C01": ("exploration",
          "bounded-exhaustive exploration of the real query pipeline against an independent reference evaluator",
          "Every predicate of depth <= 2 (thorough: 3) over a pool of ~190 atoms is executed end to end (parse, check, fold, scan choice, scan, filter, projection) on all 64 sub-stores of a 6-key universe (depth 1) or on fixed stores (deeper), row-at-a-time and in batches of 1,2,3,32, twice each, and compared row by row with a reference evaluator written from the README. Complete enumeration of the stated space, no sampling.",
